@@ -43,8 +43,9 @@ def mpz_aors(op):
     }
   else
     { /* opposite signs: |w| = |big| - |small|, sign of big; big by size, then by the highest differing limb */
-      /* amb: equal sizes, a differing limb exists, yet size 0 -- impossible by the chain lemma, but per-position logic cannot exclude it */
-      _Bool amb = (un == vn && sw == 0 && g_hd >= 0);
+      /* amb: (a) equal magnitudes (g_hd == -1): both subtraction orders are the same function, accept either;
+              (b) equal sizes, a differing limb exists, yet size 0 -- impossible by the chain lemma, but per-position logic cannot exclude it */
+      _Bool amb = (un == vn && (g_hd == -1 || sw == 0));
       _Bool bigu = un != vn ? ubig : (sw != 0 ? ((sw < 0) == (su < 0)) : 1);
       mp_limb_t Xk = bigu ? Uk : Vk, Yk = bigu ? Vk : Uk;
       __CPROVER_assert (gk < mx ==> (g_ci <= 1 && g_co <= 1), "[C03] difference: borrows are 0 or 1");
@@ -68,7 +69,7 @@ def mpz_aors(op):
         functions={f: dict(loops={0: norm_loop(), 1: norm_loop(), 2: norm_loop()})},
         harness=harness, timeout=600,
         selftest=[(f, r'if \(w->_mp_alloc < wsize\)', 'if (w->_mp_alloc < wsize - 1)'),
-                  (f, r'__gmpn_cmp \(up, vp, abs_usize\) < 0', '__gmpn_cmp (up, vp, abs_usize) <= 0'),
+                  (f, r'__gmpn_cmp \(up, vp, abs_usize\) < 0', '__gmpn_cmp (up, vp, abs_usize) > 0'),
                   (f, r'wsize = abs_usize \+ cy_limb', 'wsize = abs_usize')],
     )
 UNITS.append(mpz_aors('add'))
